@@ -12,7 +12,7 @@ RULE = ('virtual clock; every real main_loop iteration is watched by: retransmis
         'earlier than dpd after the last authentic message, not later than 2 ticks after). Workloads: (1) every request kind on both roles '
         'x EVERY subset of lost transmissions x tick sequences {0.25, 1, 3, irregular}; (2) the same after COOKIE and INVALID_KE_PAYLOAD '
         'retries (IKE_SA_INIT, CREATE_CHILD_SA, IKE rekey); (3) a partition injected after EVERY micro-step of scripted histories of every '
-        'exchange kind, then both sides must have emptied their SAD by T + dpd + 20 s + 3 ticks; (4) idle pairs run to 2x lifetime with dpd in '
+        'exchange kind (half of the runs with background noise: every later iteration is woken by a datagram for an unknown SPI or an unhandled kernel message), then both sides must have emptied their SAD by T + dpd + 20 s + 3 ticks; (4) idle pairs run to 2x lifetime with dpd in '
         '{5, 60} and lifetime in {20, 100}: rekey starts within [lifetime, lifetime+5 s+slack]; (5) a peer that answers every rekey with TEMPORARY_FAILURE '
         '(responses built by the harness with the real keys): DELETE(IKE) within 2 ticks of scheduled rekey time + 30 s; (6) two IKE_SAs with the same peer (simultaneous initiation) rekey one after the other with their first transmissions lost. distinct = run descriptors.')
 ASSUMPTIONS = ['virtual time only; a tick is one loop iteration on each endpoint after advancing the clock',
@@ -132,12 +132,12 @@ HISTORIES = {
 }
 
 
-def run_partition(ck, mons, seed, name, k, dpd, dt):
+def run_partition(ck, mons, seed, name, k, dpd, dt, noise=False):
     hs = name != 'initial+child'
     sc = walk.Scenario(seed, mons, dict(dpd=dpd, lifetime=3600), handshake=hs)
     sim = sc.sim
     sim.tick_dt = dt
-    sim.case.update({'family': 'partition', 'history': name, 'after_step': k, 'dpd': dpd, 'tick': dt})
+    sim.case.update({'family': 'partition', 'history': name, 'after_step': k, 'dpd': dpd, 'tick': dt, 'noise': noise})
     n = 0
     for _ in history_steps(sc, HISTORIES[name]):
         n += 1
@@ -150,8 +150,20 @@ def run_partition(ck, mons, seed, name, k, dpd, dt):
     had = {e.name: bool(e.kernel.sad) for e in sim.eps.values()}
     bound = dpd + 20 + 3 * dt
     t_gone = {}
+    junk = bytes(8) + b'\x11' * 8 + bytes([46, 0x20, 37, 0x08]) + (7).to_bytes(4, 'big') + (28).to_bytes(4, 'big')
     while sim.clock.t < T + bound + 2 * dt:
-        sc.tick(dt)
+        if noise:
+            # the network is not quiet: every iteration of both daemons is woken by an event (a datagram for an unknown SPI, or a kernel
+            # message of a type they do not handle); the timers still have to run
+            sim.case['actions'].append(('noisy-tick', dt))
+            sim.clock.advance(dt)
+            for e in sim.eps.values():
+                if int(sim.clock.t * 10) % 2:
+                    e.step('udp', udp=('198.51.100.99', str(e.addrs[0]), junk))
+                else:
+                    e.step('kernel', xfrm_event=bytes([16, 0, 0, 0, 0x1B, 0, 0, 0]) + bytes(8))
+        else:
+            sc.tick(dt)
         sim.net.clear()
         for e in sim.eps.values():
             if not e.kernel.sad and e.name not in t_gone:
@@ -366,7 +378,7 @@ def run(ck):
             for k in range(1, steps + 1):
                 n += 1
                 if ck.mine(n):
-                    run_partition(ck, mk(), base + 7 * n, name, k, dpd, dt)
+                    run_partition(ck, mk(), base + 7 * n, name, k, dpd, dt, noise=bool((k + len(name)) % 2))
     # (4) idle runs
     for dpd, lifetime, dt in ((5, 20, 1.0), (60, 20, 1.0), (5, 100, 2.0), (60, 100, 2.5), (7, 20, 0.5)):
         n += 1
